@@ -142,7 +142,7 @@ fn h_i32(a: i32, b: i32) -> i32 {
 pub struct Fault {
     /// Dynamic occurrence (among the eligible hints of the run).
     pub k: usize,
-    /// 0..=9 single-cell faults, 10 swap, 11 / 12 numerically consistent alternative (-/+).
+    /// 0..=9 single-cell faults, 10 swap, 11 / 12 numerically consistent alternative (-/+), 13 field wrap.
     pub variant: u8,
     pub cell: u8,
     pub seed: u64,
@@ -163,7 +163,7 @@ impl Fault {
 }
 
 pub const VARIANT_NAMES: &[&str] =
-    &["v+1", "v-1", "1-v", "P-v", "0", "1", "2", "2^128", "2^128-1", "random felt", "swap two outputs", "consistent alternative (-)", "consistent alternative (+)"];
+    &["v+1", "v-1", "1-v", "P-v", "0", "1", "2", "2^128", "2^128-1", "random felt", "swap two outputs", "consistent alternative (-)", "consistent alternative (+)", "field-wrap alternative ((a + P) div / mod b)"];
 
 /// Name and output cells of an eligible hint (cell outputs a prover chooses). Pointer-producing
 /// hints, memory-output hints, debug / circuit / syscall hints are not eligible (DESIGN.md).
@@ -248,6 +248,22 @@ fn faulted(vm: &VirtualMachine, h: &Hint, cur: &[Felt252], f: &Fault) -> Option<
             let j = (i + 1 + (f.seed as usize % (n - 1))) % n;
             out[i] = Some(cur[j]);
             out[j] = Some(cur[i]);
+        }
+        13 => {
+            // The quotient / remainder of a + P: consistent in the field, not in the integers.
+            let Hint::Core(CoreHintBase::Core(CoreHint::DivMod { lhs, rhs, .. })) = h else { return None };
+            let (a, b) = (val(vm, lhs)?.to_biguint(), val(vm, rhs)?.to_biguint());
+            if b == BigUint::from(0u8) {
+                return None;
+            }
+            let p: BigUint = (BigUint::from(1u8) << 251) + (BigUint::from(17u8) << 192) + BigUint::from(1u8);
+            let ap = a + &p;
+            let (q, r) = (&ap / &b, &ap % &b);
+            if q >= p {
+                return None;
+            }
+            out[0] = Some(Felt252::from(q));
+            out[1] = Some(Felt252::from(r));
         }
         _ => {
             // A numerically consistent alternative: the defining equation still holds, the
@@ -490,6 +506,46 @@ pub fn range_reduction_case(ch: &mut Choices) -> execs::Case {
     }
 }
 
+/// `bounded_int::div_rem(u128, NonZero<UnitInt<D>>)` for constant divisors D around the bounds where
+/// the division scheme changes (2^123 + 17 * 2^64, 2^124, ..) - the libfunc's soundness argument
+/// depends on which side of them D lies.
+pub fn bounded_div_const_case(ch: &mut Choices) -> execs::Case {
+    use num_bigint::BigInt;
+    let one = BigInt::from(1u8);
+    let edge: BigInt = (one.clone() << 123u32) + (BigInt::from(17u8) << 64u32);
+    let ds: Vec<BigInt> = vec![
+        edge.clone() - 1, edge.clone(), edge.clone() + 1, edge.clone() + (one.clone() << 100u32), (one.clone() << 124u32) - 2, (one.clone() << 124u32) - 1, one.clone() << 124u32,
+        BigInt::from(2u8) * BigInt::from(10u8).pow(37), one.clone() << 123u32, one.clone() << 122u32, one.clone() << 100u32, (one.clone() << 64u32) + 1, one.clone() << 64u32,
+        (one.clone() << 127u32) + 1, BigInt::from(10u8), BigInt::from(3u8),
+    ];
+    let d = ds[ch.below(ds.len())].clone();
+    let max: BigInt = (one.clone() << 128u32) - 1;
+    let qmax = &max / &d;
+    let source = format!(
+        "#[feature(\"bounded-int-utils\")]\nuse core::internal::bounded_int::{{self, BoundedInt, DivRemHelper, UnitInt}};\nconst D: felt252 = {d};\nconst NZ_D: NonZero<UnitInt<D>> = {d};\nimpl H of DivRemHelper<u128, UnitInt<D>> {{\n    type DivT = BoundedInt<0, {qmax}>;\n    type RemT = BoundedInt<0, {}>;\n}}\nfn dc(a: u128) -> (felt252, felt252) {{\n    let (q, r) = bounded_int::div_rem(a, NZ_D);\n    (q.into(), r.into())\n}}\n",
+        d.clone() - 1
+    );
+    let cands: Vec<BigInt> = vec![BigInt::from(0u8), one.clone(), d.clone() - 1, d.clone(), d.clone() + 1, max.clone(), max.clone() - 1, &d * BigInt::from(6u8) + BigInt::from(12345u32), BigInt::from(ch.u128())];
+    let args: Vec<Vec<Arg>> = (0..3)
+        .map(|_| {
+            let a = cands[ch.below(cands.len())].clone();
+            let a = if a > max { max.clone() } else { a };
+            vec![Arg::Value(exec::bigint_to_felt(&a))]
+        })
+        .collect();
+    execs::Case {
+        origin: format!("bounded division u128 / UnitInt<{d}>"),
+        source,
+        settings: crate::core::cairo::SETTINGS_2024_07,
+        func: Some("::dc".into()),
+        func_choice: 0,
+        gen_args: Some(args),
+        arg_seeds: vec![],
+        expected: None,
+        generated: false,
+    }
+}
+
 pub struct RunOut {
     pub result: Result<Exec, ExecErr>,
     pub kinds: Vec<&'static str>,
@@ -551,7 +607,7 @@ impl Prop for C03 {
     }
     fn rule(&self) -> String {
         "Programs: e2e snippet functions (libfunc-level: integer division, wide multiplication, square roots, u256 / \
-         u512 division, inverse mod n, casts and range reductions, EC, dictionaries), example files, felt252 -> BoundedInt<L, U> range reductions over boundary (L, U) pairs on arguments around L, U, 2^128 and 2^128 + L, a curated file of hint-rich corelib calls (square roots, u256 division / inverse / mul-mod, wide multiplication, felt downcasts, dictionary squash, EC, felt division) and \
+         u512 division, inverse mod n, casts and range reductions, EC, dictionaries), example files, felt252 -> BoundedInt<L, U> range reductions over boundary (L, U) pairs on arguments around L, U, 2^128 and 2^128 + L, bounded_int::div_rem(u128, constant D) for D around the bounds where the division scheme changes, a curated file of hint-rich corelib calls (square roots, u256 division / inverse / mul-mod, wide multiplication, felt downcasts, dictionary squash, EC, felt division) and \
          generated typed programs, with arguments directed by the Sierra parameter types. The honest run records every \
          dynamic occurrence of a hint whose outputs are cells a prover chooses (23 kinds: TestLessThan*, WideMul128, \
          DivMod, Uint256DivMod, Uint512DivModByUint256, SquareRoot, Uint256SquareRoot, LinearSplit, \
@@ -560,7 +616,7 @@ impl Prop for C03 {
          U256InvModN). Faults, drawn kind-first over the kinds present: at one occurrence, after the honest hint \
          ran, one output cell := v+1, v-1, 1-v, P-v, 0, 1, 2, 2^128, 2^128-1, a random felt; two outputs swapped; \
          numerically consistent but out-of-range alternatives ((q-+1, r+-d) for divisions, (hi-+1, lo+-2^128), \
-         (x-+1, y+-scalar), the other square root, the mirrored curve point, (s-+1, rem+-(2s-+1))). The rewrite uses \
+         (x-+1, y+-scalar), the other square root, the mirrored curve point, (s-+1, rem+-(2s-+1)); for DivMod also the quotient / remainder of a + P). The rewrite uses \
          delete_unaccessed + insert_value; a cell already pinned leaves the fault unapplied (counted). Oracle: the \
          faulted run fails in the VM, or its pointer-aware normalised result equals the honest one; a panic of \
          the honest hint code after the divergence counts as rejection. Non-trivial = an applied fault; distinct = \
@@ -587,12 +643,16 @@ impl Prop for C03 {
                 db = FrontCfg::default_cfg().new_db(Plugins::Default);
             }
             // Fault choices first (choice starvation).
-            let plan: Vec<(u32, u32, u8, u8, u64)> = (0..per_case).map(|_| (ch.next(), ch.next(), ch.below(13) as u8, ch.below(6) as u8, ch.u64())).collect();
-            let case = match ch.weighted(&[2, 3, 5]) {
+            let plan: Vec<(u32, u32, u8, u8, u64)> = (0..per_case).map(|_| (ch.next(), ch.next(), ch.below(14) as u8, ch.below(6) as u8, ch.u64())).collect();
+            let case = match ch.weighted(&[2, 3, 5, 1]) {
                 0 => range_reduction_case(ch),
+                3 => bounded_div_const_case(ch),
                 1 => execs::pick_case(ch, &curated, 0, 3),
                 _ => execs::pick_case(ch, &snippets, 3, 2),
             };
+            if case.origin.starts_with("bounded division") {
+                cc.stats().count("bounded_division_cases");
+            }
             if case.origin.starts_with("range reduction") {
                 cc.stats().count("range_reduction_cases");
             }
